@@ -45,7 +45,7 @@ theorem eps_struct_zero_shape (base : Nat) (m : AdtMeta) (vs : Variants) (fs : L
              pos + ((Ty.adt m vs).enc (.record fs) pos).length) := by
   have hw' := hw
   simp only [Ty.wf, Bool.and_eq_true, hz, if_true, Bool.not_eq_true'] at hw
-  have hzc : (Ty.adt m vs).isZC = true := by simp [Ty.isZC, hz, hw.1.2.2]
+  have hzc : (Ty.adt m vs).isZC = true := by simp [Ty.isZC, hz, hw.1.2.1]
   have hrt := Ty.memRT (.adt m vs) hzc hw' (.record fs) hwt
   rw [Ty.enc_adt_zero m vs fs pos hz, Ty.decEps_adt_zero base m vs _ pos hz]
   simp only [decEpsZero, List.append_assoc]
